@@ -7,4 +7,9 @@ import (
 	"verif/c18"
 )
 
-func main() { os.Exit(c18.Run()) }
+func main() {
+	if len(os.Args) > 2 && os.Args[1] == "batrun" {
+		os.Exit(c18.BatRun(os.Args[2:])) // replay helper: a Batch script under the cmd.exe model with the probes
+	}
+	os.Exit(c18.Run())
+}
